@@ -48,7 +48,7 @@ prop("C09", title="impossible sizes", equiv=["next_aligned_equiv", "make_layout_
      trusted=[HAND, EXTR, "Eval.v's reading of usize arithmetic (panic in debug, wrap in release), checked_add/checked_mul and Layout::from_size_align"])
 prop("C10", title="iterator protocol", equiv=["EquivIter.drain_next_equiv", "EquivIter.drain_next_back_equiv", "EquivIter.into_next_equiv", "EquivIter.into_next_back_equiv", "EquivIter.into_len_equiv", "EquivIter.into_size_hint_equiv", "EquivDrain.into_new_equiv", "EquivIter.splice_next_equiv", "EquivIter.splice_next_back_equiv", "EquivIter.drain_size_hint_equiv", "EquivIter.splice_size_hint_equiv", "EquivFilter.loop_equivF", "EquivFilter.filter_next_equiv", "EquivFilter.filter_size_hint_equiv", "EquivDelegIter.into_iter_is_into_iter_new", "EquivIter.into_as_slice_equiv"], trusted=[HAND, EXTR])
 prop("C11", title="out-of-range arguments rejected atomically", equiv=["EquivDrain.drain_equiv", "EquivDrain.splice_equiv"], trusted=[HAND, EXTR])
-prop("C12", equiv=["EquivClone.loop_equivC", "EquivClone.clone_equiv", "EquivDrain.into_clone_equiv", "EquivExtSlice.loop_equivS", "EquivExtSlice.extend_from_slice_equiv", "EquivExtSlice.loop_equivFS", "EquivExtSlice.from_slice_equiv"], title="clones deep and independent", trusted=[HAND, EXTR, UBDEF])
+prop("C12", equiv=["EquivClone.loop_equivC", "EquivClone.clone_equiv", "EquivClone.clone_surface", "EquivDrain.into_clone_equiv", "EquivExtSlice.loop_equivS", "EquivExtSlice.extend_from_slice_equiv", "EquivExtSlice.loop_equivFS", "EquivExtSlice.from_slice_equiv"], title="clones deep and independent", trusted=[HAND, EXTR, UBDEF])
 prop("C13", title="handle is one pointer wide with a niche", impl="sizes",
      trusted=["coq/Layout.v: rustc's repr(Rust) struct layout rules are MODELLED (40 lines), not verified; "
               "rustc is the observed oracle (size_of/align_of table printed by the harness)"])
